@@ -299,7 +299,9 @@ def band_case(ctx, rng, idx):
             r['Dose'] = np.nan
             r['Duration'] = np.nan
         rows.append(r)
-    if pk:
+    # (an untreated group: the dose columns exist but hold no dose event)
+    dose_free = pk and rng.random() < 0.25
+    if pk and not dose_free:
         rows.append({'ID': 1, 'Time': 0.0, 'Observable': np.nan,
                      'Value': np.nan, 'Dose': 2.0, 'Duration': 0.01})
     nan_time_row = rng.random() < 0.2
@@ -328,8 +330,11 @@ def band_case(ctx, rng, idx):
     probs = sorted(probs)
     probs = [float(p) for p in rng.permutation(probs)][:7]
     feats = {'figure': pname, 'n_samples': n_s, 'ties': ties,
-             'bulk_probs': probs, 'n_times': n_times}
-    ctx.case((pname, n_s, ties, len(probs), n_times),
+             'bulk_probs': probs, 'n_times': n_times,
+             'dose_free_prediction': bool(dose_free)}
+    if dose_free:
+        ctx.count('dose_free_pk_predictions')
+    ctx.case((pname, n_s, ties, len(probs), n_times, bool(dose_free)),
              ties or len(probs) >= 2, sample=feats)
     fig = getattr(chi.plots, pname)()
     before = digest(df)
